@@ -28,7 +28,13 @@ RULE = (
     'file handle); headers: default header x units x coordinate names, the fixed header list, and every ASCII character '
     '0..127 in the templates "a<c>b", "<c>", "a<c>1 2 3"; coordinate sets: 1..5 coords x dimension-coordinate present or '
     'not x explicit coord=each name or deduced x memory layout; refusal family: every compatible combination of one or '
-    'two of 7 defects x explicit/deduced coord x rows 1/3 x target.  Thorough tier in addition: (1) the full product of a '
+    'two of 7 defects x explicit/deduced coord x rows 1/3 x target; alignment: every subset of {dimension-coordinate, 1-d '
+    'coord a, 1-d coord b, scalar coord} x every aligned/unaligned assignment x coord=None / each name x rows 1/3, data '
+    'built directly and as a row sliced out of 2-d data (unaligned scalar left behind), judged by the docstring rule '
+    '(ambiguity counted over all coordinates, alignment irrelevant, a 0-d coordinate cannot be X); target representation: '
+    'str / Path x suffix {.xye, .dat, none, .gz, .bz2, .xz, .GZ, .xye.gz} x {no file, longer valid file, garbage} before '
+    'the save, open handle x 3 suffixes, StringIO, rows 1/3/40: round trip, directory holds only the target, bytes on disk '
+    '(after gzip/bz2/lzma for the suffixes numpy honours) equal the text written to a StringIO.  Thorough tier in addition: (1) the full product of a '
     '119-value x 83-variance alphabet (signed zeros, subnormal/normal boundary, extremes, 1 +- ulp, decimal classics, powers of '
     'ten; exact and inexact square roots) at every row position of 1..4-row tables x 12 targets; (2) bit-pattern families: '
     'every power of two 2^-1074..2^1023 with both neighbours and both signs, 120 000 numbers each with 15 / 16 / 17 significant '
@@ -51,13 +57,17 @@ ASSUMPTIONS = [
     'files are read back the way load_xye reads them (text mode, universal newlines for paths and plain open(); StringIO without translation)',
     '"a few units in the last place" = 4 ulp measured on the bit pattern',
     'refused = any exception and nothing written to the target',
+    'which coordinate is written when coord is omitted follows the save_xye docstring (the only coordinate; else the one named like the '
+    'dimension; else refuse) irrespective of alignment flags; a 0-d coordinate named explicitly or as only coordinate is refused (as the code does)',
+    'numpy decides compression from the case-sensitive suffix .gz/.bz2/.xz of a path it opens itself; handles and other suffixes hold plain text',
     'thorough: paths ending .gz/.bz2/.xz are compressed by numpy on both sides (text checks skipped there); file handles '
     'only in modes that start from an empty file (w, a on a new file, x, w+); float32/int coordinates must come back as '
     'exactly the number they hold; time stamps of the file are set with os.utime in the overwrite histories (content, not '
     'mtime, decides what a load returns)',
 ]
 BOUND = {
-    'quick': 'all 11x11x10 one-row triples; 2/3-row windows; 1000 rows; 9 fixed + 384 ASCII-template headers; 1..5 coords; all 1- and 2-defect refusals',
+    'quick': 'all 11x11x10 one-row triples; 2/3-row windows; 1000/1024/2048 rows; 9 fixed + 384 ASCII-template headers; 1..5 coords; all 1- and 2-defect refusals; '
+             'all 16 coordinate subsets x 81 alignment assignments x coord choices x 2 productions (2 376 calls per target); 58 target representation x suffix x pre-existing-file cases',
     'thorough': 'quick bound plus: 119x83 value/variance product at every position of 1..4 rows x 12 targets (1.19e6 round trips); '
                 '6 294 powers of two +- 1 ulp, 4 x 120 000 decimal-digit numbers, 15 436 square-root cases, 18 432 mantissa patterns; '
                 '1e4- and 1e5-row all-distinct tables; all header strings up to length 5/6/7 over a 6-letter alphabet, 32 control '
